@@ -229,7 +229,7 @@ def run(tier, seed, replay):
         violations.append({'replay': p})
         print('  finding [%s] %s: %s' % (cls, cid, desc[:330]))
     shutil.rmtree(d, ignore_errors=True)
-    cov = {'evaluations': len(variants), 'distinct_nontrivial': len(variants),
+    cov = {'evaluations': len(variants), 'distinct_nontrivial': qv.distinct_nontrivial([t for _, t in variants], needs=('W ', 'D ')), 'nontrivial_rule': 'distinct (history, fault set) scripts with at least one write or discard',
            'rule': 'for each base history one run per backend request index with that request failing (exhaustive per history in the thorough tier, sampled to 60 in quick), one run with hole punching unsupported, and random multi-request fault sets by (kind, host range, nth occurrence); recovery = faults off, flush_meta x4, snapshot, reopen, sweep',
            'samples': [{'geometry': g.desc(), 'ops': [hist.op_line(o) for o in ops]} for g, ops, _, _ in bases[:2]],
            'base_histories': len(bases), 'fault_runs': len(variants), 'api_errors_observed': errs['err'],
